@@ -13,6 +13,7 @@ import ScpiVerif.Drv.Util
 import ScpiVerif.Drv.IntFmt
 import ScpiVerif.Drv.Queue
 import ScpiVerif.Drv.Regs
+import ScpiVerif.Drv.Heap
 open ScpiVerif.Drv
 
 def dispatch (cfg : String) (inp : List String) (obs : List String) : Option Verdict :=
@@ -20,6 +21,7 @@ def dispatch (cfg : String) (inp : List String) (obs : List String) : Option Ver
   | some "I" => runIntFmt inp obs
   | some "Q" => runQueue cfg inp obs
   | some "R" => runRegs inp obs
+  | some "H" => runHeap inp obs
   | _ => none
 
 structure Stats where
